@@ -195,6 +195,24 @@ func GenerateGRPC(r *lp.Rng, index int) *Design {
 			}
 			s.Methods = append(s.Methods, m)
 		}
+		if si == 0 && index%6 == 4 {
+			// the metadata table: every primitive kind and arrays of primitives travel as metadata
+			pl := &Att{Type: &Type{IsObject: true}}
+			mt := &Method{Name: "meta_table", GRPC: &GRPCMap{}}
+			num := 1
+			for _, p := range []string{"String", "Int", "Int32", "Int64", "UInt", "UInt32", "UInt64", "Float32", "Float64", "Boolean"} {
+				n1, n2 := "m_"+lower(p), "ms_"+lower(p)
+				pl.Type.Object = append(pl.Type.Object,
+					&Field{Name: n1, Att: tag(&Att{Type: &Type{Prim: p}}, num)},
+					&Field{Name: n2, Att: tag(&Att{Type: &Type{Array: &Att{Type: &Type{Prim: p}}}}, num+1)})
+				num += 2
+				mt.GRPC.Metadata = append(mt.GRPC.Metadata, Mapped{Attr: n1}, Mapped{Attr: n2})
+			}
+			pl.Type.Object = append(pl.Type.Object, &Field{Name: "note", Att: tag(&Att{Type: &Type{Prim: "String"}}, num)})
+			mt.Payload = pl
+			mt.Result = &Att{Type: &Type{Prim: "String"}}
+			s.Methods = append(s.Methods, mt)
+		}
 		d.Services = append(d.Services, s)
 	}
 	return d
